@@ -121,6 +121,11 @@ process_data(struct video_filter_s* self,
                         .shape = shape,
                         .timestamps = in->timestamps,
                     };
+                    // The region is recycled queue memory: the sum has to
+                    // start from zero.
+                    memset((*accumulator)->data, // NOLINT
+                           0,
+                           nbytes - sizeof(struct VideoFrame));
                     CHECK(accumulate(*accumulator, in));
                     *frame_count = 1;
                 }
